@@ -603,8 +603,10 @@ class StmtMixin(object):
         if isinstance(v, (NoneV, ConstV)):
             raise Unsupported('loop assigns %s whose entry value is %r: declare its sort in Loop(havoc=...)' % (name, v))
         if isinstance(v, UnionV):
-            gs = [fresh(name + '_alt', 'Bool') for _ in v.alts]
-            raise Unsupported('loop assigns %s with a union entry value' % name)
+            # some value of one of the same alternatives (None stays None, the others are fresh values of their tag)
+            sel = fresh('which_' + name)
+            self.pending_facts += [sel >= 0, sel < len(v.alts)]
+            return UnionV([(sel == i, a if isinstance(a, NoneV) else self.havoc_value(a, '%s_alt%d' % (name, i))) for i, (_, a) in enumerate(v.alts)])
         raise Unsupported('cannot havoc %s (entry value %r)' % (name, v))
 
     def havoc_for_loop(self, st, body, lp, extra_names=()):
@@ -691,6 +693,9 @@ class StmtMixin(object):
             raise Unsupported('while-else')
         snap = self.entry_snapshot(st)
         self.check_invariant(lp, st, 'inv-init', ordinal, snap)
+        if len(lp.invariant) == 1 and lp.invariant[0][1].strip() == 'False':
+            # the contract claims the loop is unreachable: inv-init (just generated) is exactly that claim; nothing continues from here
+            return
         h = self.havoc_for_loop(st, s.body, lp)
         h = self.assume_invariant(lp, h, snap)
         for s1, g in self.ev(s.test, h):
